@@ -16,7 +16,7 @@ from .. import symre
 from ..symre import SymRe
 from .. import common, hook
 
-FUNCS = ['androguard.core.apk.APK.get_dex_names', 'APK.is_multidex', 'APK.get_all_dex', 'APK.get_dex']
+FUNCS = ['androguard.core.apk.APK.get_dex_names', 'APK.is_multidex', 'APK.get_all_dex', 'APK.get_dex', 'APK.get_file', 'APK.get_files']
 
 
 def in_lang(name):
@@ -116,9 +116,17 @@ SPEC = z3.Concat(z3.Re(z3.StringVal('classes')), z3.Star(z3.Range(z3.StringVal('
 
 
 class FakeZip:
+    """archive stub: entry i has content CONTENT[i % 3] (an empty entry included); unknown names raise KeyError"""
+    CONTENT = [b'', b'\x00', b'dex\n035']
+
     def __init__(self, names): self.names = names
     def namelist(self): return list(self.names)
-    def read(self, n): return ('data:', n)
+
+    def read(self, n):
+        for i, x in enumerate(self.names):
+            if x is n or (isinstance(x, str) and isinstance(n, str) and x == n):
+                return self.CONTENT[i % 3]
+        raise KeyError(n)
 
 
 def make_apk(apkmod, names):
@@ -147,7 +155,14 @@ def job(jc, n):
         names = list(a.get_dex_names())
         multi = a.is_multidex()
         datas = list(a.get_all_dex())
-        return [x is name for x in names], [x for x in names if x is not name], multi, datas
+        # get_file: present entries (also the empty one) return their content, a missing one raises FileNotPresent
+        files = [a.get_file(name), a.get_file('classes.dex'), a.get_file('AndroidManifest.xml')]
+        try:
+            a.get_file('no/such/entry')
+            missing = 'returned'
+        except apkmod.FileNotPresent:
+            missing = 'FileNotPresent'
+        return [x is name for x in names], [x for x in names if x is not name], multi, datas, files, missing
 
     def ext(m):
         return dict(kind='name', name=name.concrete(m))
@@ -156,12 +171,15 @@ def job(jc, n):
         if kind == 'exc':
             jc.obligation(eng, pc, z3.BoolVal(False), ext, label=label, what='raised %r' % (r,))
             continue
-        flags, rest, multi, datas = r
+        flags, rest, multi, datas, files, missing = r
         listed = any(flags)
         obs = {'listed iff root-level classes[0-9]*.dex': want == z3.BoolVal(listed),
                'other entries': z3.BoolVal(rest == ['classes.dex']),
                'is_multidex': z3.BoolVal(multi) == want,        # classes.dex is always present -> multidex iff name is a dex
-               'get_all_dex reads exactly the listed names': z3.BoolVal(len(datas) == len(flags))}
+               'get_all_dex reads exactly the listed names': z3.BoolVal(
+                   datas == ([FakeZip.CONTENT[0]] if listed else []) + [FakeZip.CONTENT[1]]),
+               'get_file returns the entry content / FileNotPresent': z3.BoolVal(
+                   files == [FakeZip.CONTENT[0], FakeZip.CONTENT[1], FakeZip.CONTENT[0]] and missing == 'FileNotPresent')}
         jc.obligations(eng, pc, obs, ext, label=label, what='%s: violated')
     eng.partition_guard()
     jc.sample(dict(case=label, paths=eng.st.paths))
@@ -225,7 +243,13 @@ def run(ctx):
 def concrete(c):
     from androguard.core import apk as apkmod
     a = make_apk(apkmod, c)
-    return [list(a.get_dex_names()), a.is_multidex(), len(list(a.get_all_dex()))]
+    out = [list(a.get_dex_names()), a.is_multidex(), [bytes(x).hex() for x in a.get_all_dex()]]
+    for n in list(c) + ['missing']:
+        try:
+            out.append(bytes(a.get_file(n)).hex())
+        except apkmod.FileNotPresent:
+            out.append('FileNotPresent')
+    return out
 
 
 def replay(w):
@@ -239,5 +263,13 @@ def replay(w):
     except Exception as e:
         return True, 'entry %r raised %r' % (name, e)
     exp = [n for n in names if in_lang(n)]
+    try:
+        files = [a.get_file(n) for n in names]
+        datas = list(a.get_all_dex())
+    except Exception as e:
+        return True, 'entries %r: reading a present entry raised %r' % (names, e)
+    want = [FakeZip.CONTENT[i % 3] for i in range(len(names))]
+    if files != want or datas != [want[names.index(n)] for n in exp]:
+        return True, 'entries %r: get_file/get_all_dex returned %r / %r, archive holds %r' % (names, files, datas, want)
     return got != exp or multi != (len(exp) > 1), 'entries %r: get_dex_names=%r is_multidex=%r, expected %r / %r' % (
         names, got, multi, exp, len(exp) > 1)
